@@ -704,6 +704,29 @@ pub fn gen_pfloat(r: &mut Rng, ty: FloatTy, sw: &Swarm) -> (Vec<u8>, Option<u64>
                 (s.into_bytes(), None)
             }
         },
+        9 if r.chance(1, 2) => {
+            // signed zeros spelled with arbitrary exponents and zero runs (sign of zero must survive)
+            let e = *r.pick(&sw.hot_exps) as i64
+                * if r.chance(1, 2) {
+                    1
+                } else {
+                    -1
+                }
+                + r.range(-3, 3);
+            let z = "0".repeat(1 + r.below(if sw.small { 6 } else { 40 }) as usize);
+            let body = match r.below(4) {
+                0 => format!("0e{}", e),
+                1 => format!("0.{}e{}", z, e),
+                2 => format!("{}.0e{}", z, e),
+                _ => format!("0.{}", z),
+            };
+            let s = if r.chance(2, 3) {
+                format!("-{}", body)
+            } else {
+                body
+            };
+            (s.into_bytes(), None)
+        },
         9 => (r.pick(&SPECIAL_POOL).to_vec(), None),
         10 => {
             let mut t = shortest(r);
@@ -728,8 +751,8 @@ pub fn gen_pfloat(r: &mut Rng, ty: FloatTy, sw: &Swarm) -> (Vec<u8>, Option<u64>
 /// what this workload exercises).
 fn gen_moderate_bits(r: &mut Rng, ty: FloatTy, sw: &Swarm) -> u64 {
     let span = match ty {
-        FloatTy::F64 => 900,
-        FloatTy::F32 => 100,
+        FloatTy::F64 => 1021,
+        FloatTy::F32 => 125,
     };
     loop {
         let b = match r.below(4) {
@@ -858,6 +881,16 @@ pub fn gen_op(r: &mut Rng, sw: &Swarm) -> Op {
         };
     }
     if r.below(1000) < sw.nan_custom_permille {
+        // a run uses two or three of the custom strings, so the same options address sees different contents
+        let hot = sw.hot_exps[0] as u64;
+        let idx = ((hot + r.below(3)) % PNAN_POOL.len() as u64) as u8;
+        return Op::PNanCustom {
+            ty: fty(r),
+            idx,
+            text: r.below(PNAN_TEXTS.len() as u64) as u8,
+        };
+    }
+    if r.below(1000) < sw.nan_custom_permille {
         return Op::WNanCustom {
             ty: fty(r),
             idx: r.below(NAN_POOL.len() as u64) as u8,
@@ -900,6 +933,32 @@ pub fn gen_op(r: &mut Rng, sw: &Swarm) -> Op {
                     ty,
                     text,
                     expect,
+                };
+            },
+            K_WFLOAT if r.chance(1, 5) => {
+                // custom exponent breaks, value steered to within a decade or two of a break point
+                let ty = fty(r);
+                let idx = r.below(BREAK_POOL.len() as u64) as u8;
+                let (nb, pb) = BREAK_POOL[idx as usize];
+                let bits = if r.chance(2, 3) {
+                    let e10 = if r.chance(1, 2) {
+                        nb as i64
+                    } else {
+                        pb as i64
+                    } + r.range(-2, 2);
+                    let lim = match ty {
+                        FloatTy::F64 => (-323, 308),
+                        FloatTy::F32 => (-45, 38),
+                    };
+                    let s = format!("{}{}e{}", if r.chance(1, 2) { "-" } else { "" }, 1 + r.below(9999), e10.clamp(lim.0, lim.1) - r.below(4) as i64);
+                    ty.std_parse(&s).unwrap()
+                } else {
+                    gen_float_bits(r, ty, sw)
+                };
+                return Op::WFloatBreaks {
+                    ty,
+                    bits,
+                    idx,
                 };
             },
             K_WFLOAT => {
